@@ -712,3 +712,97 @@ def ordered_loop(func: FuncInfo, inner: ast.AST) -> Optional[OrderedLoop]:
         if cand is not None and (found is None or any(x is cand.node for x in ast.walk(found.node))):
             found = cand
     return found
+
+
+# ---------------------------------------------------------------------- one reading of a string built from pieces
+def string_template(e: ast.expr) -> Optional[str]:
+    """``f'a.{x}.{y}'``, ``'a.{}.{}'.format(x, y)``, ``'a.%s.%s' % (x, y)`` and ``'a.' + str(x) + '.' + str(y)`` all read
+    ``a.{x}.{y}`` (placeholders hold the normalised text of the piece, ``str()`` around a piece dropped); None for anything else."""
+    import re as _re
+    e = strip_cast(e)
+
+    def piece(x: ast.expr) -> str:
+        x = strip_cast(x)
+        if isinstance(x, ast.Call) and isinstance(x.func, ast.Name) and x.func.id == 'str' and len(x.args) == 1 and not x.keywords:
+            x = x.args[0]
+        return '{' + norm(x) + '}'
+    if isinstance(e, ast.Constant) and isinstance(e.value, str):
+        return e.value
+    if isinstance(e, ast.JoinedStr):
+        out = ''
+        for v in e.values:
+            if isinstance(v, ast.Constant):
+                out += str(v.value)
+            elif isinstance(v, ast.FormattedValue) and v.format_spec is None and v.conversion in (-1, 115):
+                out += piece(v.value)
+            else:
+                return None
+        return out
+    if isinstance(e, ast.Call) and isinstance(e.func, ast.Attribute) and e.func.attr == 'format' and isinstance(e.func.value, ast.Constant) and isinstance(e.func.value.value, str) \
+            and not any(isinstance(a, ast.Starred) for a in e.args):
+        t = e.func.value.value
+        kws = {k.arg: k.value for k in e.keywords if k.arg}
+        auto = iter(range(len(e.args)))
+
+        def sub(m):
+            name = m.group(1)
+            try:
+                if name == '':
+                    return piece(e.args[next(auto)])
+                if name.isdigit():
+                    return piece(e.args[int(name)])
+                return piece(kws[name])
+            except (StopIteration, IndexError, KeyError):
+                raise ValueError
+        try:
+            return _re.sub(r'\{(\w*)(?:!s)?\}', sub, t)
+        except ValueError:
+            return None
+    if isinstance(e, ast.BinOp) and isinstance(e.op, ast.Mod) and isinstance(e.left, ast.Constant) and isinstance(e.left.value, str):
+        args = list(e.right.elts) if isinstance(e.right, ast.Tuple) else [e.right]
+        it = iter(args)
+        try:
+            out = _re.sub(r'%s', lambda m: piece(next(it)), e.left.value)
+        except StopIteration:
+            return None
+        return out if next(it, None) is None else None
+    if isinstance(e, ast.BinOp) and isinstance(e.op, ast.Add):
+        l, r = string_template(e.left), string_template(e.right)
+        if l is None:
+            l = piece(e.left) if not isinstance(e.left, ast.BinOp) else None
+        if r is None:
+            r = piece(e.right) if not isinstance(e.right, ast.BinOp) else None
+        return None if l is None or r is None else l + r
+    return None
+
+
+# ---------------------------------------------------------------------- a flag raised here is lowered on every way out
+def _cannot_raise(n: Node) -> bool:
+    """Binding a name, or an attribute of self, to a constant or a name (``self._flag = True``, ``x = None``) cannot fail."""
+    a = n.ast
+    if n.kind != 'stmt' or not isinstance(a, (ast.Assign, ast.AnnAssign, ast.Pass)):
+        return False
+    if isinstance(a, ast.Pass):
+        return True
+    tg = a.targets if isinstance(a, ast.Assign) else [a.target]
+    v = a.value
+    return (v is None or isinstance(v, (ast.Constant, ast.Name))) and all(
+        isinstance(t, ast.Name) or (isinstance(t, ast.Attribute) and isinstance(t.value, ast.Name) and t.value.id == 'self') for t in tg)
+
+
+def flag_lowered_on_every_exit(func: FuncInfo, attr_key: str, raised: str, lowered: str) -> Tuple[bool, int]:
+    """Every way out of ``func`` -- return, fall-through or a propagating exception -- from a statement ``<attr_key> = <raised>`` passes a
+    statement ``<attr_key> = <lowered>``.  True for ``try: flag = True; ... finally: flag = False`` and equally for the flag raised just
+    before the ``try`` with nothing that can fail in between.  Returns (holds, number of raising statements)."""
+    cfg = cfg_of(func)
+
+    def is_set(n: Node, val: str) -> bool:
+        return n.kind == 'stmt' and isinstance(n.ast, ast.Assign) and len(n.ast.targets) == 1 and norm(n.ast.targets[0]) == attr_key and norm(n.ast.value) == val
+    ups = [n for n in cfg.nodes if is_set(n, raised)]
+    feasible = lambda a, b, l: not (l in ('exc', 'uncaught') and _cannot_raise(a))
+    ok = True
+    for u in ups:
+        starts = [t for t, l in u.succ if l not in ('exc', 'uncaught', 'handler')]
+        for st in starts:
+            ok &= cfg.must_pass(st, [cfg.exit, cfg.raise_exit], lambda m: is_set(m, lowered), edge_ok=feasible)
+    return ok, len(ups)
